@@ -1131,6 +1131,81 @@ def rule_r9(chk, prog, reg):
                           'automatic detection is called outside '
                           'ddsmt_main, on an input that is not the user\'s',
                           loc=om.loc(c), nontrivial=True)
+    # the registry is read-only for its users: a dict handed out by
+    # get_mutators()/get_all_mutators() is never modified by a caller
+    nmut = 0
+    for om in prog.pkg_modules():
+        if 'tests' in om.rel():
+            continue
+        for q, fn in om.funcs.items():
+            tainted = set()
+            changed_ = True
+            while changed_:
+                changed_ = False
+                for st in ast.walk(fn):
+                    tg, src = None, None
+                    if isinstance(st, ast.Assign):
+                        tg, src = st.targets, st.value
+                    elif isinstance(st, (ast.For, ast.comprehension)):
+                        tg, src = [st.target], st.iter
+                    if tg is None:
+                        continue
+                    hit = any(isinstance(x, ast.Call) and (call_name(
+                        x) or '').split('.')[-1] in ('get_all_mutators',
+                                                     'get_mutators')
+                              and not x.args
+                              for x in ast.walk(src)) or any(
+                                  isinstance(x, ast.Name) and x.id in tainted
+                                  for x in ast.walk(src))
+                    if hit:
+                        for t in tg:
+                            for y in ast.walk(t):
+                                if isinstance(y, ast.Name) and \
+                                        y.id not in tainted:
+                                    tainted.add(y.id)
+                                    changed_ = True
+            if not tainted:
+                continue
+            for x in ast.walk(fn):
+                bad = None
+                if isinstance(x, ast.Call) and isinstance(
+                        x.func, ast.Attribute) and x.func.attr in (
+                            'pop', 'popitem', 'clear', 'update',
+                            'setdefault', 'remove', 'append', 'extend',
+                            'insert', 'sort', 'reverse'):
+                    base = x.func.value
+                    while isinstance(base, ast.Subscript):
+                        base = base.value
+                    if isinstance(base, ast.Name) and base.id in tainted:
+                        bad = x
+                if isinstance(x, (ast.Assign, ast.AugAssign, ast.Delete)):
+                    tgs = x.targets if isinstance(
+                        x, (ast.Assign, ast.Delete)) else [x.target]
+                    for t in tgs:
+                        if isinstance(t, ast.Subscript):
+                            base = t.value
+                            while isinstance(base, ast.Subscript):
+                                base = base.value
+                            if isinstance(base, ast.Name) and \
+                                    base.id in tainted:
+                                bad = x
+                if bad is not None:
+                    nmut += 1
+                    from . import options_table as _ot
+                    _ot.registry(prog)
+                    shared = sorted(_ot.SHARED_REGISTRIES)
+                    chk.check('C14.R9', f'{om.name}.{q}', bad, not shared,
+                              f'"{unparse(bad)[:50]}" modifies a dict that '
+                              'comes from the mutator registry, and '
+                              f'get_mutators() of {shared} hands out one '
+                              'shared object: the entry is gone for every '
+                              'later reader (the pass builder of the other '
+                              'strategy, the option parser) - an enabled '
+                              'mutator silently disappears from the passes',
+                              loc=om.loc(bad), nontrivial=True)
+    chk.instance('C14.R9', 'package', f'{nmut} modification(s) of registry '
+                 'dicts by their users', True, 'registry read-only',
+                 nontrivial=False)
     # the strategies
     for modname, builder in (('strategy_hierarchical', 'get_passes'),
                              ('strategy_ddmin', 'ddmin_passes')):
